@@ -69,6 +69,13 @@ static void RAPass_reset_virt_reg_data(BaseRAPass* self) noexcept {
     // Reset work reg association so it cannot be used by accident (RAWorkReg data will be destroyed).
     virt_reg->_work_reg = nullptr;
   }
+
+  // When the allocation failed early `_work_regs` has not been populated yet - the per-group vectors always are.
+  self->_work_regs_of_group.for_each([](ArenaVector<RAWorkReg*>& regs) {
+    for (RAWorkReg* work_reg : regs) {
+      work_reg->virt_reg()->_work_reg = nullptr;
+    }
+  });
 }
 
 // BaseRAPass - Run Prepare & Cleanup
@@ -223,6 +230,13 @@ Error BaseRAPass::run_on_function(Arena& arena, FuncNode* func, [[maybe_unused]]
   // made a later `finalize()` follow dangling pointers.
   for (BaseNode* node = func; node != _stop; node = node->next()) {
     node->reset_pass_data();
+  }
+
+  // A label that was referenced but never bound has a node that is not part of the list, but got a block too.
+  for (LabelNode* label_node : cc()._label_nodes) {
+    if (label_node) {
+      label_node->reset_pass_data();
+    }
   }
 
   // Reset possible connections introduced by the register allocator.
